@@ -33,6 +33,8 @@ def merge_attributes(node: AbbreviationNode, config: Config):
 def merge_value(prev_value: list=None, next_value: list=None, glue: str=''):
     "Merges two token lists into single list. Adjacent strings are merged together"
     if prev_value is not None and next_value is not None:
+        # The list may still be shared with the same attribute on another node
+        prev_value = prev_value[:]
         if prev_value and glue:
             append(prev_value, glue)
 
